@@ -912,3 +912,17 @@ Proof.
     rewrite forallb_forall in H5. specialize (H5 nd (nth_error_In _ _ Hnth)).
     rewrite !andb_true_iff in H5. destruct H5 as ((A & B) & C). apply ext_leb_le in C. split; [lia|exact C].
 Qed.
+
+Lemma argmin_In d : forall best, argmin best d = fst best \/ In (argmin best d) (map fst d).
+Proof.
+  induction d as [|[k v] d IH]; intros best; simpl; [auto|].
+  destruct (v <? snd best).
+  - destruct (IH (k, v)) as [H|H]; [rewrite H; simpl; auto|auto].
+  - destruct (IH best) as [H|H]; auto.
+Qed.
+
+Lemma choose_min_mem d : d <> [] -> In (choose_min d) (map fst d).
+Proof.
+  destruct d as [|kv0 rest]; [congruence|]. intros _. unfold choose_min. simpl.
+  destruct (argmin_In rest kv0) as [H|H]; auto.
+Qed.
